@@ -63,6 +63,8 @@ def real_socket_round(chk, rng, nclients, rounds):
                 s.sendall(data[pos:c])
                 pos = c
                 time.sleep(rng.random() * 0.01)
+                if pos >= len(data):
+                    behaviour = 'normal'          # the whole frame went out (no cut left): nothing is truncated
                 if behaviour == 'early-close' and pos >= len(data) // 2:
                     s.close()
                     with lock:
@@ -121,6 +123,19 @@ def real_socket_round(chk, rng, nclients, rounds):
                      {'api': 'MLLPServer on loopback', 'behaviour': r[3], 'payload_hex': r[2].hex()})
     chk.dist['real_socket_connections'] = len(results)
     chk.dist['real_socket_handler_invocations'] = len(log)
+
+
+def usable_header(p):
+    """independent reading of MSH-1 / MSH-2: a field separator followed by four or five characters, all distinct, none of them white space"""
+    if len(p) < 8:
+        return False
+    fs = p[3]
+    parts = p.split('\r')[0].split(fs)
+    if len(parts) < 2:
+        return False
+    m2 = parts[1]
+    chars = fs + m2
+    return len(m2) in (4, 5) and len(set(chars)) == len(chars) and not any(c.isspace() for c in chars)
 
 
 def run(tier, seed):
@@ -187,7 +202,8 @@ def run(tier, seed):
             by_stream.setdefault(key, o)
         tag = j[4]
         invs = [x for x in inv.split(',') if x]
-        if tag.startswith(('split', 'rand:typed')) and pure:
+        if tag.startswith(('split', 'rand:typed')) and pure and '\r\r' not in j[5].decode('utf-8', 'replace') and not j[5].startswith(b'\r'):
+            # (a frame whose payload holds an empty segment line is not something to_mllp() produces: the frame grammar rejects it; no routing claim)
             # a complete frame of an HL7 message: exactly one handler invocation (plus ERR after a raising handler), routed by MSH-9
             p = j[5].decode('utf-8')
             mt = p.split('\r')[0].split('|')[8] if p.startswith('MSH') and len(p.split('\r')[0].split('|')) > 8 else None
@@ -197,6 +213,10 @@ def run(tier, seed):
             elif mt in j[1]:
                 want = ['H:' + vlib.hexs(mt)] + (['E:HandlerException'] if j[2] else [])
                 wr = vlib.hexs('ERR:HandlerException') if j[2] else '-'
+            elif p.startswith('MSH') and not usable_header(p):
+                # MSH-2 does not give five (six) distinct delimiters: not an HL7 message
+                want = ['E:InvalidHL7Message'] if j[2] else []
+                wr = vlib.hexs('ERR:InvalidHL7Message') if j[2] else '-'
             else:
                 want = ['E:UnsupportedMessageType'] if j[2] else []
                 wr = vlib.hexs('ERR:UnsupportedMessageType') if j[2] else '-'
